@@ -17,21 +17,31 @@ def sh(cmd, **kw):
     return subprocess.run(cmd, shell=True, capture_output=True, text=True, **kw)
 
 
-assert sh("git -C /repo status --porcelain").stdout.strip() == "", "/repo not clean"
-r = sh(f"git -C /repo apply --check {patch}")
+REPO = os.environ.get("SEED_REPO", "/repo")       # a scratch clone may be used so that several seeds run in parallel
+ENV = dict(os.environ)
+if REPO != "/repo":
+    ENV["PYTHONPATH"] = REPO + "/src"
+
+
+def sh(cmd, **kw):
+    return subprocess.run(cmd, shell=True, capture_output=True, text=True, env=ENV, **kw)
+
+
+assert sh(f"git -C {REPO} status --porcelain").stdout.strip() == "", f"{REPO} not clean"
+r = sh(f"git -C {REPO} apply --check {patch}")
 if r.returncode:
     print("patch does not apply:", r.stderr)
     sys.exit(2)
 res = {"id": sid, "property": prop, "checks": {}}
 try:
-    sh(f"git -C /repo apply {patch}")
-    b = sh("/verif/tools/baseline_check.py")
+    sh(f"git -C {REPO} apply {patch}")
+    b = sh(f"/verif/tools/baseline_check.py {REPO}")
     res["baseline_with_change"] = b.stdout.strip().splitlines()[-1] if b.stdout.strip() else b.stderr[-200:]
-    d = sh(f"cd /repo && /venv/bin/python {dst}/demo.py")
+    d = sh(f"cd {REPO} && /venv/bin/python {dst}/demo.py")
     res["demo_exit_with_change"] = d.returncode
     for c in checks:
         t = time.time()
-        rr = sh(f"/verif/check {c} --tier quick")
+        rr = sh(f"{os.environ.get('SEED_VERIF', '/verif')}/check {c} --tier quick")
         lines = [l for l in rr.stdout.splitlines() if l.startswith(("VIOLATION", c + " quick", "KNOWN", "MACH"))]
         res["checks"][c] = {"exit": rr.returncode, "seconds": round(time.time() - t, 1),
                             "violations": sum(1 for l in lines if l.startswith("VIOLATION")),
@@ -39,9 +49,10 @@ try:
                             "summary": next((l for l in lines if l.startswith(c + " quick")), rr.stderr[-300:])}
         print(c, "exit", rr.returncode, res["checks"][c]["first"][:200] or res["checks"][c]["summary"][:200])
 finally:
-    sh("git -C /repo checkout -- .")
-    sh("git -C /verif checkout -- evidence 2>/dev/null; rm -rf /verif/replays")
-d = sh(f"cd /repo && /venv/bin/python {dst}/demo.py")
+    sh(f"git -C {REPO} checkout -- .")
+    if REPO == "/repo":
+        sh("git -C /verif checkout -- evidence 2>/dev/null; rm -rf /verif/replays")
+d = sh(f"cd {REPO} && /venv/bin/python {dst}/demo.py")
 res["demo_exit_without_change"] = d.returncode
 res["caught_by"] = [c for c, v in res["checks"].items() if v["exit"] == 1]
 print(json.dumps({k: v for k, v in res.items() if k != "checks"}))
